@@ -36,6 +36,7 @@ class Check(AddCheck):
         yield from gens.merge_cases_item(n_max=n_max, max_src=2, para_layouts=['none', 'between'])
         yield from gens.merge_cases_other()
         yield from gens.merge_cases_bad_timing_payload()
+        yield from gens.merge_cases_padded()
         for ro, doc, meta in kth_bad_cases():
             yield {'ro': ro, 'msg': to_text(doc), 'meta': meta}
         n_hist = 100 if tier == 'quick' else 1000
